@@ -79,13 +79,21 @@ class Layout(object):
             return sorted(set(os.path.join(root, self.rel_dir(i)) for i in range(self.nfiles)))
         return []
 
+    decor = None          # {file index: (comment after every #include line | None, replacement of the final newline | None)}
     blank = None          # {file index: text} of files that hold no definition at all (empty, comment only)
 
     def text(self, i, extra_includes=()):
         if self.blank and i in self.blank:
             return ''.join('#include "%s"\n' % x for x in extra_includes) + self.blank[i]
         incs = [self.include_text(i, j) for j in self.includes[i]] + list(extra_includes)
-        return self.schema.to_prophy(self.files[i], incs)
+        text = self.schema.to_prophy(self.files[i], incs)
+        if self.decor and i in self.decor:
+            inc_comment, tail = self.decor[i]
+            if inc_comment:
+                text = '\n'.join(l + inc_comment if l.startswith('#include') else l for l in text.split('\n'))
+            if tail is not None:
+                text = text.rstrip('\n') + tail
+        return text
 
     def write(self, root):
         paths = []
@@ -201,6 +209,13 @@ def layouts(draw, opts=None, min_files=2, max_files=5, transitive_focus=3, blank
         users = draw(st.lists(st.integers(0, k - 1), min_size=1, max_size=3, unique=True))
         for u in users:
             lay.includes[u] = lay.includes[u] + [k]
+    # comments where the grammar allows them: after an #include (with quotes inside), as the last line without newline
+    if draw(st.integers(0, 2)) == 0:
+        lay.decor = {}
+        for i in range(lay.nfiles):
+            if draw(st.booleans()):
+                lay.decor[i] = (draw(st.sampled_from([None, ' // see "types" for details', ' /* "quoted" */', ' // x'])),
+                                draw(st.sampled_from([None, '', '\n// end', '\n// end of "file"', ' // tail', '\n/* bye */'])))
     # a file is sometimes named after a type it defines (Point.prophy holding struct Point)
     if draw(st.integers(0, 2)) == 0:
         stems = []
